@@ -30,6 +30,8 @@ def pricedOf (toks : List String) : Option String :=
   if argI toks "gpd" 0 != 0 then some "other:illegal_gasLimit_or_gasPrice" else none
 
 def brokenOf (toks : List String) : Option String :=
+  -- an account output that is not a whole number of commitment units is refused by the semantic check
+  if argI toks "rem" 0 != 0 then some "money" else
   match arg? toks "tamper" with
   | some "outpk" | some "pseudo" | some "fee" => some "commit"
   | some "proof" | some "image" | some "sig" => some "proof"
